@@ -52,6 +52,7 @@ type Event struct {
 	Cell string      `json:"cell,omitempty"`
 	N    int         `json:"n,omitempty"`
 	Note string      `json:"note,omitempty"`
+	Sync bool        `json:"sync,omitempty"` // write: called by the goroutine that runs ServeJSONSocket
 }
 
 func (e Event) String() string {
@@ -69,6 +70,9 @@ func (e Event) String() string {
 			s = s[:160] + "..."
 		}
 		fmt.Fprintf(&sb, " %s id=%q %s", e.Type, e.ID, s)
+		if e.Sync {
+			sb.WriteString(" [sync]")
+		}
 	case EvStoreWrite:
 		fmt.Fprintf(&sb, " %s op=%d", e.Cell, e.N)
 	case EvResNew, EvResClean:
